@@ -117,7 +117,8 @@ struct BufferStream
 	StreamBuffer w;
 	StreamBufferReader* r;
 	ByteArray data;
-	explicit BufferStream(const TmpDir&) : w(ENDIAN_NATIVE), r(0) {}
+	unsigned calls;
+	explicit BufferStream(const TmpDir&) : w(ENDIAN_NATIVE), r(0), calls(0) {}
 	~BufferStream() { delete r; }
 	static const char* name() { return "StreamBuffer"; }
 	bool ok() const { return true; }
@@ -131,7 +132,7 @@ struct BufferStream
 		r = new StreamBufferReader(data, ENDIAN_NATIVE);
 	}
 	void rset(Endian e) { r->setEndian(e); }
-	template <class T> void get(T& x) { *r >> x; }
+	template <class T> void get(T& x) { if (++calls & 1) *r >> x; else x = r->read<T>(); }
 	std::string getRaw(int n, int)
 	{
 		ByteArray a = r->read(n);
@@ -144,7 +145,8 @@ struct FileStream
 {
 	std::string path;
 	File w, r;
-	explicit FileStream(const TmpDir& d) : path(d.file("f")) { w.open(path.c_str(), File::WRITE); }
+	unsigned calls;
+	explicit FileStream(const TmpDir& d) : path(d.file("f")), calls(0) { w.open(path.c_str(), File::WRITE); }
 	~FileStream()
 	{
 		w.close();
@@ -167,7 +169,7 @@ struct FileStream
 		r.open(path.c_str(), File::READ);
 	}
 	void rset(Endian e) { r.setEndian(e); }
-	template <class T> void get(T& x) { r >> x; }
+	template <class T> void get(T& x) { if (++calls & 1) r >> x; else x = r.read<T>(); }
 	std::string getRaw(int n, int)
 	{
 		std::string s((size_t)n, '\0');
@@ -185,7 +187,8 @@ struct SocketStream
 	Socket* r;
 	std::string all; // every byte seen on the wire so far
 	size_t consumed;
-	explicit SocketStream(const TmpDir&) : w(0), r(0), consumed(0)
+	unsigned calls;
+	explicit SocketStream(const TmpDir&) : w(0), r(0), consumed(0), calls(0)
 	{
 		fds[0] = fds[1] = -1;
 		if (socketpair(AF_UNIX, SOCK_STREAM, 0, fds) != 0) return;
@@ -221,7 +224,8 @@ struct SocketStream
 	void rset(Endian e) { r->setEndian(e); }
 	template <class T> void get(T& x)
 	{
-		*r >> x;
+		if (++calls & 1) *r >> x;
+		else x = r->read<T>();
 		consumed += sizeof(T);
 	}
 	std::string getRaw(int n, int variant)
